@@ -279,14 +279,27 @@ def scene_inertia(scene, transform: Optional[ArrayLike] = None) -> NDArray[float
 
     # get the matrix ang geometry name for
     nodes = [graph[n] for n in graph.nodes_geometry]
-    # get the moment of inertia with the mesh moved to a location
-    moments = np.array(
-        [
-            geoms[g].moment_inertia_frame(np.dot(np.linalg.inv(mat), transform))
-            for mat, g in nodes
-            if hasattr(geoms[g], "moment_inertia_frame")
-        ],
-        dtype=np.float64,
-    )
+    if transform is None:
+        transform = np.eye(4)
 
-    return moments.sum(axis=0)
+    # get the moment of inertia with the mesh moved to a location
+    moments = []
+    for mat, g in nodes:
+        if not hasattr(geoms[g], "moment_inertia_frame"):
+            continue
+        # an instance may be uniformly scaled: factor the scale out of
+        # the instance transform, as the inertia of a body scaled by `s`
+        # is `s ** 5` times the inertia of the unscaled body
+        scale = np.abs(np.linalg.det(mat[:3, :3])) ** (1.0 / 3.0)
+        rigid = np.array(mat, dtype=np.float64)
+        rigid[:3, :3] /= scale
+        # the requested frame expressed in the scaled geometry frame
+        frame = np.dot(np.linalg.inv(rigid), transform)
+        # and then in the unscaled geometry frame
+        frame[:3, 3] /= scale
+        moments.append(geoms[g].moment_inertia_frame(frame) * scale**5)
+
+    if len(moments) == 0:
+        return np.zeros((3, 3), dtype=np.float64)
+
+    return np.array(moments, dtype=np.float64).sum(axis=0)
